@@ -134,6 +134,7 @@ func (cr *compRun) runHashmap() {
 		ops := cc.Tasks[ti]
 		tasks = append(tasks, w.Spawn(fmt.Sprintf("h%d", ti), func() {
 			for i, op := range ops {
+				simrt.BeginOp(simrt.HashString(op.Kind))
 				exec(ti, i, op)
 			}
 		}))
